@@ -205,7 +205,27 @@ def r4_release_on_last_drop(ctx):
             adt = F.adt(self_ty)
             has_permit = adt is not None and any("OwnedSemaphorePermit" in f["ty"] or "SubscriptionPermit" in f["ty"] for f in adt["variants"][0]["fields"])
             R.check(has_permit, "C06.R4", "permit-with-entry:%s" % fkey(b), "the value that removes the entry also owns the permit", "%s removes the entry but does not own the permit" % short(self_ty), where(c))
-        # removal only if still active (not already unsubscribed) and with the own key
+        # removal only if still active (not already unsubscribed): after an unsubscribe the key may belong to a newer
+        # subscription (ids can be re-issued by a custom IdProvider)
+        act = b.calls_to(r"IsUnsubscribed::is_unsubscribed$|SubscriptionSink::is_active_subscription$")
+        okg = False
+        for g in act:
+            want_true = g.name().endswith("is_active_subscription")
+            for l in follow_value(b, g.dest["l"]):
+                for sb, arms, other in flow.switch_on(b, l):
+                    tt = (other if "0" in arms else arms.get("1")) if want_true else arms.get("0")
+                    if tt is not None and b.dominates(tt, c.bb):
+                        okg = True
+            # `!x` form
+            for bi2, blk2 in enumerate(b.blocks):
+                for st2 in blk2["st"]:
+                    if st2["s"] == "assign" and st2["rv"]["k"] == "un" and st2["rv"]["op"] == "Not" and arg_is_local(b, st2["rv"]["a"], g.dest["l"]):
+                        for sb, arms, other in flow.switch_on(b, st2["pl"]["l"]):
+                            tt = arms.get("0") if want_true else (other if "0" in arms else arms.get("1"))
+                            if tt is not None and b.dominates(tt, c.bb):
+                                okg = True
+        R.check(okg, "C06.R4", "drop-only-if-active:%s" % fkey(b), "the entry is removed on drop only while the subscription is still active", "Drop removes the table entry even after the subscription was unsubscribed: a stale sink can remove the entry of a newer subscription that was given the same id", where(c))
+        # ... and with the own key
         tr = ctx.tracer(follow_callers=False, follow_fields=False)
         lv = tr.origins(b, c.args[1])
         ok = bool(lv) and all(l.kind == "field" and l.detail["fields"][-1][1] == "uniq_sub" for l in lv)
